@@ -5,6 +5,7 @@
 //   print <slot> <mslot>                -> print text=<hash> <issues> unchanged=<0|1>
 //   validate <slot> <mslot>             -> validate <issues> unchanged=<0|1>
 //   analyse <slot> <mslot>              -> analyse type=<t> model=<hash> <issues> unchanged=<0|1>
+//   analysex <slot> <mslot> <c> <v>     the same with variable c.v marked as external (plain analyse removes the marks)
 //   generate <gslot> <aslot> C|PY       -> generate code=<hash>
 //   resolve <islot> <mslot> <dir>       -> resolve <0|1> <issues>
 //   flatten <islot> <mslot> <fslot>     -> flatten null|dump=<hash> <issues> unchanged=<0|1> library=<0|1>
@@ -109,10 +110,17 @@ int main()
             auto v = validators.at(slot(1));
             v->validateModel(m);
             std::cout << "validate " << issueSummary(v) << " unchanged=" << (dump(m) == before ? 1 : 0) << std::endl;
-        } else if (c == "analyse") {
+        } else if (c == "analyse" || c == "analysex") {
+            // analysex <aslot> <mslot> <component> <variable>: with that variable marked as external
             auto m = models.at(slot(2));
             auto before = dump(m);
             auto a = analysers.at(slot(1));
+            a->removeAllExternalVariables();
+            if (c == "analysex") {
+                auto comp = m->component(t.at(3), true);
+                auto var = comp == nullptr ? nullptr : comp->variable(t.at(4));
+                if (var != nullptr) a->addExternalVariable(AnalyserExternalVariable::create(var));
+            }
             a->analyseModel(m);
             std::cout << "analyse type=" << AnalyserModel::typeAsString(a->model()->type()) << " model=" << H64(analysed(a->model())) << " " << issueSummary(a) << " unchanged=" << (dump(m) == before ? 1 : 0) << std::endl;
         } else if (c == "generate") {
